@@ -93,10 +93,12 @@ func (p *HandlerFirstConnect) handleDest(ctx context.Context, msg i.MiningMessag
 		msgOut = typed
 
 	case *sm.MiningSetExtranonce:
-		msgOut = nil
+		// the destination connection has recorded the new extranonce: the miner has to learn it too
+		msgOut = typed
 
 	case *sm.MiningSetVersionMask:
-		msgOut = nil // sent manually
+		// same for a mask the pool changes after its configure result
+		msgOut = typed
 
 	// TODO: handle multiversion
 	case *sm.MiningResult:
